@@ -30,7 +30,10 @@ def showLog (rev : List Agg) : String :=
 
 /-- ops:  `agg <batch>`   aggregate_with(batch); answer = the whole aggregated log, oldest first
           `aggm <batch>`  the same with the mutant (self-test only)
-          `clear`         AggregatedErrorLog.clear()
+          `clear`         AggregatedErrorLog.clear()   (EngineData.reset_run at a run start / stop)
+          `reconnect`     engine_disconnected deletes the EngineData, the re-registration creates a new one whose
+                          error_log is AggregatedErrorLog.empty() (`_try_restore_reconnected_engine_data` restores the
+                          run id and the contributors only): the log the handlers see starts empty again
     batch = `-` | entries joined by `;`, entry = `<msg code points>|<severity>|<time in 1/8 s>` -/
 def step (s : List Agg) (line : String) : List Agg × String :=
   match fields line with
@@ -43,6 +46,7 @@ def step (s : List Agg) (line : String) : List Agg × String :=
     | some b => let s' := b.foldl pushMutant s; (s', showLog s')
     | none => (s, "bad-op")
   | ["clear"] => ([], "-")
+  | ["reconnect"] => ([], "-")
   | _ => (s, "bad-op")
 
 end Driver.ErrorLog
